@@ -87,6 +87,8 @@ CH = {
     'with_only': ('<dtml-with o only><dtml-var secret></dtml-with>', lambda s, c: dict(o=Item(secret=s, pub='p')), ('secret',), ()),
     'with_if': ('<dtml-with o><dtml-if secret>T<dtml-else>F</dtml-if></dtml-with>', lambda s, c: dict(o=Item(secret=s, pub='p')), ('secret',), ()),
     'expr_attr': ('<dtml-var "o.secret">', lambda s, c: dict(o=Item(secret=s, pub='p')), ('secret',), ()),
+    'expr_fstring': ('<dtml-var "f\'{o.secret}\'">|<dtml-let z="f\'{o.pub}\'"><dtml-var z></dtml-let>', lambda s, c: dict(o=Item(secret=s, pub='p')), ('secret',), ()),
+    'expr_fstring_item': ('<dtml-var "f\'{o.d[1]}\'">', lambda s, c: dict(o=Item(d={1: s, 'pub': 1}, pub='p')), (), (1,)),
     'expr_item': ('<dtml-var "o.d[\'secret\']">', lambda s, c: dict(o=Item(d={'secret': s, 'pub': 1}, pub='p')), (), ('secret',)),
     'in_item': ('<dtml-in seq><dtml-var secret>,</dtml-in>', lambda s, c: dict(seq=[Item(secret='x', pub='p0'), Item(secret=s, pub='p1', forbidden=True)]), (), ()),
     'in_item_skip': ('<dtml-in seq skip_unauthorized><dtml-var secret>,</dtml-in>', lambda s, c: dict(seq=[Item(secret='x', pub='p0'), Item(secret=s, pub='p1', forbidden=True), Item(secret='z', pub='p2')]), (), ()),
@@ -221,7 +223,8 @@ def ob_underscore_render(k: int, guarded: bool, viawith: bool) -> bool:
     return out == 'none' and o.touched == []
 
 
-BAD_EXPRS = ['_x', 'o._y', 'o.__class__', '_x.y', 'o.f()._z', '[a for a in o._y]', 'o.__dict__["k"]', '__import__("os")']
+BAD_EXPRS = ['_x', 'o._y', 'o.__class__', '_x.y', 'o.f()._z', '[a for a in o._y]', 'o.__dict__["k"]', '__import__("os")',
+             "f'{o._y}'", "rf'{o.__class__}'", "F'{_x}'", "f'{o._y!r:>4}'", "(lambda: o._y)()", "o._y if 1 else 0"]
 
 
 def ob_restricted_compile(k: int) -> bool:
@@ -288,3 +291,61 @@ OBLIGATIONS.append(Ob('underscore_render', ob_underscore_render, ['0 <= k <= 2']
 OBLIGATIONS.append(Ob('restricted_compile', ob_restricted_compile, ['0 <= k < %d' % len(BAD_EXPRS)], timeout=tier(200, 600), data='-', selectors='restricted expressions %r' % BAD_EXPRS))
 OBLIGATIONS.append(Ob('skip_in', ob_skip_in, timeout=tier(200, 600), data='which of 5 items the guard refuses (symbolic bits); batched or not', selectors='dtml-in skip_unauthorized'))
 OBLIGATIONS.append(Ob('skip_tree', ob_skip_tree, timeout=tier(200, 600), data='which of 5 branches the guard refuses (symbolic bits)', selectors='dtml-tree skip_unauthorized expand_all'))
+
+
+# ---------------------------------------------------------------- wave 4: the guard decides per OBJECT, every time
+class GT2(HTML):
+    """guard that refuses the attribute `report` on confidential objects only"""
+
+    def guarded_getattr(self, inst, name, *default):
+        G.log.append(('attr', name))
+        if name == 'report' and getattr(inst, 'confidential', False):
+            raise Unauthorized(name)
+        return getattr(inst, name)
+
+    def guarded_getitem(self, ob, index):
+        return ob[index]
+
+
+class Doc:
+    def __init__(self, text, confidential):
+        self.text, self.confidential = text, confidential
+
+    def report(self):
+        return 'R(' + self.text + ')'
+
+
+T_PEROBJ = GT2('<dtml-in docs><dtml-try><dtml-var sequence-item fmt=report><dtml-except>REFUSED</dtml-try>,</dtml-in>')
+T_PEROBJ.cook()
+T_PEROBJ2 = GT2('<dtml-try><dtml-var d fmt=report><dtml-except>REFUSED</dtml-try>|<dtml-try><dtml-var "d.report()"><dtml-except>REFUSED</dtml-try>|<dtml-with d><dtml-try><dtml-var report><dtml-except>REFUSED</dtml-try></dtml-with>')
+T_PEROBJ2.cook()
+
+
+def ob_guard_per_object(c0: bool, c1: bool, c2: bool, s: str) -> bool:
+    """method formats (fmt=), expressions and with-lookups ask the guard for EVERY object: a confidential object after public ones of the
+    same class (same loop, same tag; or a later rendering of the same template) is still refused"""
+    cs = [bool(c0), bool(c1), bool(c2)]
+    s = 'sec' if len(s) > 0 else ''
+    from crosshair.tracers import NoTracing
+    with NoTracing():
+        return _per_object(cs, s)
+
+
+def _per_object(cs, s):
+    G.log, G.deny_attr, G.deny_item = [], (), ()
+    docs = [Doc('d%d' % i + (s if cs[i] else ''), cs[i]) for i in range(3)]
+    out = T_PEROBJ(docs=docs)
+    exp = ''.join(('REFUSED' if cs[i] else 'R(d%d)' % i) + ',' for i in range(3))
+    if out != exp:
+        return False
+    for i in range(3):
+        o = T_PEROBJ2(d=docs[i])
+        one = 'REFUSED' if cs[i] else 'R(d%d)' % i
+        if o != one + '|' + one + '|' + one:
+            return False
+    return True
+
+
+OBLIGATIONS.append(Ob('guard_asked_per_object', ob_guard_per_object, ['len(s) <= 1'], timeout=tier(250, 900), data='-',
+                      selectors='which of three objects of one class are confidential (3 bits): fmt=report on loop items, fmt= / expression / with-lookup on one template object rendered three times; guard refuses per object',
+                      stubs='render runs untraced once the bits are fixed on the path'))
